@@ -21,6 +21,7 @@ func init() {
 		e.RAddsEveryMissing()
 		e.RAddSurvives()
 		e.RDeclRemoval()
+		e.RGates()
 		e.RImportRoles()
 		e.RDeadAppend()
 		e.RAliasFlow()
@@ -41,6 +42,8 @@ func init() {
 		e.RDiscovery()
 		e.RAliasFlow()
 		e.RMerge()
+		e.RMergeAppendGuard()
+		e.RGates()
 		e.RRestoreIdent()
 		e.C05Space()
 	})
@@ -53,6 +56,8 @@ func init() {
 		e.RCarry()
 		e.RResolverFile()
 		e.RFileOf()
+		e.RGates()
+		e.RGoastGates()
 		e.RResolverClauses()
 		e.RResolverErrorsFirst()
 		e.RErr(e.pkgs(load.PkgDecorator, load.PkgGoast, load.PkgGotypes), 85)
@@ -74,6 +79,7 @@ func init() {
 		e.RAddsEveryMissing()
 		e.RAddSurvives()
 		e.RDeclRemoval()
+		e.RGates()
 		e.RImportRoles()
 		e.RAliasFlow()
 		e.RPackageNamesOwnership()
